@@ -809,7 +809,16 @@ def rule_r13(facts, col, rule_id="C08.R13"):
     every non-error path from that write to a return passes a produce() on the same window.  A path that writes and
     returns without committing has spent input (or state) on samples the reader never sees.  (Same obligation as R8,
     for blocks that write through slice() instead of fill_from_*().)"""
-    for body in facts.impl_bodies(BLOCK_TRAIT, "work"):
+    works = [b for b in facts.impl_bodies(BLOCK_TRAIT, "work") if not b.from_derive]
+    # ... and the block's own methods that open a write window themselves (`fn pad_output(&mut self) -> Result<usize> { let mut o =
+    # self.dst.write_buf()?; ..}`): the window dies when the method returns, so the obligation is the method's own
+    own = []
+    for w_ in works:
+        for hb in adt_helpers(facts, w_):
+            if hb.kind != "closure" and hb not in own and hb not in works and "BufferWriter" not in (hb.locals[0]["ty"] if hb.locals else "") \
+                    and any((t_["f"].get("name") == "write_buf") for _b, t_ in hb.calls()):
+                own.append(hb)
+    for body in works + own:
         if body.from_derive:
             continue
         slices = {}
